@@ -52,6 +52,26 @@ def batch_iteration_paths(g, L, resp, item_try, handling_param):
     return sim, res
 
 
+
+def locate_sets_single_result(hg, hrd, node, val, fn):
+    """the store is `self._id_placeholder = X[0]` on the true edge of `len(X) == 1`, X being the very list handed to LocateResponsePayload(unique_identifiers=X)"""
+    from ..guards import dominating_edges, cmp_parts
+    if not (isinstance(val, ast.Subscript) and isinstance(val.value, ast.Name) and isinstance(val.slice, ast.Constant) and val.slice.value == 0):
+        return False
+    x = val.value.id
+    returned = [k.value for c in ast.walk(fn) if isinstance(c, ast.Call) and (call_name(c) or '').endswith('LocateResponsePayload') for k in c.keywords if k.arg == 'unique_identifiers']
+    if not (len(returned) == 1 and isinstance(returned[0], ast.Name) and returned[0].id == x):
+        return False
+    # x is not rebound between the test, the store and the construction of the response
+    if len([d for d in hrd.reaching(node, x)]) != 1:
+        return False
+    for tt, lab in dominating_edges(hg, node):
+        p = cmp_parts(tt.stmt)
+        if p and p[1] == 'Eq' and lab == 'T' and isinstance(p[0], ast.Call) and call_name(p[0]) == 'len' and p[0].args and U(p[0].args[0]) == x \
+                and isinstance(p[2], ast.Constant) and p[2].value == 1:
+            return True
+    return False
+
 def run(ctx):
     src = ctx.src
     ai = EngineAI.shared(src)
@@ -215,10 +235,14 @@ def run(ctx):
             if meth in ('__init__', 'process_request'):
                 ctx.check(isinstance(val, ast.Constant) and val.value is None, 'C08.R5', 'KmipEngine.%s|placeholder-reset' % meth, site, 'reset to None', 'placeholder set to %s in %s' % (U(val), meth))
                 continue
-            creating.add(meth)
             hg = CFG(fn)
             hrd = ReachingDefs(hg)
             node = node_of_expr(hg, n._parent)
+            if meth == '_process_locate' and locate_sets_single_result(hg, hrd, node, val, fn):
+                # KMIP: a Locate that returns exactly one identifier places it in the ID placeholder (nothing is created, nothing to commit)
+                ctx.ok('C08.R5', site, 'Locate copies its single returned identifier into the ID placeholder')
+                continue
+            creating.add(meth)
             commits_ = m.commit_nodes(hg)
             okp = meth in m.handlers and bool(commits_) and all(hg.dominates(cn, node) for cn in commits_)
             okv = False
